@@ -15,12 +15,14 @@
      js   <prog>   → trace of the MiniJS semantics of `direct body` (`GV.Direct.evalJF`)
      skel <prog>   → per function `|`-separated skeleton of `direct body`
      ds   <lv> <op>  → desugaring of `lv op= rhs`: temp names and result (`GV.Desugar`)
-  topic `nm`: the name allocator protocol of the C16 driver (model `GV.Names`), reused as is.
+  topic `nm`: the name allocator protocol of the C16 driver (model `GV.Names`), reused; `nm new` additionally seeds the
+     root context with `GV.NamesPlain.reservedGlobals`.
 -/
 import GV.Model.Ctrl
 import GV.Model.Direct
 import GV.Model.Desugar
 import GV.Driver.C16
+import GV.Model.NamesPlain
 
 namespace GV.Driver.C01
 open GV.Ctrl GV.Direct
@@ -285,6 +287,10 @@ def handleProg : List String → String
 
 def handle (st : GV.Driver.C16.NmState) : List String → GV.Driver.C16.NmState × String
   | "c01" :: rest => (st, handleProg rest)
+  | "nm" :: "new" :: rest =>
+    -- newRootCtx also seeds the reserved globals (package.go:148-150, `GV.NamesPlain.seedExtra`)
+    let (st', a) := GV.Driver.C16.handleNm st ("new" :: rest)
+    ({ st' with chain := st'.chain.map (GV.NamesPlain.seedExtra GV.NamesPlain.reservedGlobals) }, a)
   | "nm" :: rest => GV.Driver.C16.handleNm st rest
   | _ => (st, "bad-topic")
 
